@@ -324,29 +324,33 @@ def playback(src, hdir, h, geom, tdir, logdir, test_src=None):
         p = subprocess.run(cmd, cwd=cwd, capture_output=True, text=True, env=kani_env())
         out = p.stdout + p.stderr
         open(os.path.join(logdir, f"playback-gen-{h.name}.log"), "w").write(out)
-        m = re.search(r"```\s*\n(.*?)```", out, re.S)
-        if not m:
+        blocks = re.findall(r"```\s*\n(.*?)```", out, re.S)
+        blocks = [b for b in blocks if "kani_concrete_playback_" in b]
+        if not blocks:
             return None, None, "no concrete playback test generated"
-        test_src = m.group(1)
-    m = re.search(r"fn\s+(kani_concrete_playback_\w+)", test_src)
-    if not m:
+        # one test per failed check / satisfied witness: keep them all, any of them failing natively reproduces
+        uniq = {}
+        for b in blocks:
+            m = re.search(r"fn\s+(kani_concrete_playback_\w+)", b)
+            if m:
+                uniq.setdefault(m.group(1), b)
+        test_src = "\n".join(uniq.values())
+    names = re.findall(r"fn\s+(kani_concrete_playback_\w+)", test_src)
+    if not names:
         return None, test_src, "cannot find test name"
-    tname = m.group(1)
+    shutil.copyfile(os.path.join(HARNESS_DIR, h.crate, h.module + ".rs"), hfile)
     with open(hfile, "a") as f:
         f.write("\n" + test_src + "\n")
     results = {}
     alltxt = ""
-    for profile in ("dev", "release"):
-        cmd = ["cargo", "kani", "playback", "-Z", "concrete-playback", "--features", feats] + target
-        if profile == "release":
-            cmd += ["--release"]
-        cmd += ["--", tname, "--exact", "--nocapture"] if False else ["--", tname]
-        p = subprocess.run(cmd, cwd=cwd, capture_output=True, text=True, env=kani_env())
-        txt = p.stdout + p.stderr
-        alltxt += f"--- playback ({profile}) exit={p.returncode}\n" + txt[-4000:]
-        ran = re.search(r"running 1 test", txt) is not None
-        failed = p.returncode != 0 and ran
-        results[profile] = failed if ran else None
+    # (`cargo kani playback` has no --release; both profiles of this workspace keep overflow checks on)
+    cmd = ["cargo", "kani", "playback", "-Z", "concrete-playback", "--features", feats] + target + ["--", "kani_concrete_playback_"]
+    p = subprocess.run(cmd, cwd=cwd, capture_output=True, text=True, env=kani_env())
+    txt = p.stdout + p.stderr
+    alltxt += f"--- playback (dev) exit={p.returncode}\n" + txt[-6000:]
+    ran = re.search(r"running \d+ tests?", txt) is not None
+    # panic=abort in this workspace: the first failing test aborts the test binary (non-zero exit)
+    results["dev"] = (p.returncode != 0) if ran else None
     open(os.path.join(logdir, f"playback-run-{h.name}.log"), "w").write(alltxt)
     vals = [v for v in results.values() if v is not None]
     if not vals:
@@ -488,7 +492,7 @@ def main():
 def analyse(r, h, geom, hdir, prop, findings, stats):
     rec = {
         "harness": h.name, "role": h.role, "geometry": geom, "status": r.get("status"), "duration_ms": r.get("duration_ms"),
-        "checks_total": 0, "checks_reachable_ok": 0, "checks_unreachable": 0, "covers_ok": [], "violating": [],
+        "checks_total": 0, "checks_reachable_ok": 0, "checks_unreachable": 0, "covers_ok": [], "covers_failed": [], "violating": [],
         "known": [], "other_props": [], "problems": [], "stats": stats, "tagged_ok": 0, "samples": [],
     }
     checks = r.get("checks", [])
@@ -504,7 +508,7 @@ def analyse(r, h, geom, hdir, prop, findings, stats):
             if st.upper() in ("SATISFIED", "COVERED"):
                 rec["covers_ok"].append(c["description"])
             else:
-                rec["problems"].append(f"vacuity witness not satisfied: {c['description']} ({st})")
+                rec["covers_failed"].append(f"vacuity witness not satisfied: {c['description']} ({st})")
             continue
         if st.upper() == "SUCCESS":
             rec["checks_reachable_ok"] += 1
@@ -538,6 +542,10 @@ def analyse(r, h, geom, hdir, prop, findings, stats):
             rec["known"].append((f, c))
         else:
             rec["violating"].append(c)
+    # A failed assertion is assumed afterwards (Kani semantics), which can make later
+    # witnesses unsatisfiable: only a run without failures must satisfy all of them.
+    if not rec["violating"] and not rec["known"] and not rec["other_props"]:
+        rec["problems"] += rec["covers_failed"]
     return rec
 
 
